@@ -167,6 +167,7 @@ type World struct {
 	zombies       []*Actor
 	Registry      *Registry
 	resynced      bool // the plan ran a resync round at quiescence (every controller reconciled every key once more)
+	fairRandom    bool // calm-phase scheduler picks uniformly at random instead of round-robin by class (second reference run)
 	sweepCount    int
 	sweepTeardown []int             // request indexes (sweep numbering) issued by passes of an owner that is being torn down
 	Taint         map[string]string // object key -> cause tag set by a monitor (e.g. stale takeover)
